@@ -53,6 +53,12 @@ type Op struct {
 	Reader bool `json:"reader,omitempty"`
 	// NoHandlers: do not install the UnReportedErrors / CompletedCallback options
 	NoHandlers bool `json:"no_handlers,omitempty"`
+	// ExecTwice: call Exec a second time on the same *Query after the first returned
+	ExecTwice bool `json:"exec_twice,omitempty"`
+	// Register: instead of a query, (re-)register the stub body under this
+	// function name, as an immediate function when RegisterImmediate is set
+	Register          string `json:"register,omitempty"`
+	RegisterImmediate bool   `json:"register_immediate,omitempty"`
 }
 
 type Client struct {
@@ -100,6 +106,8 @@ type OpObs struct {
 	SeqReturn    int64           `json:"seq_return"`
 	StepReturn   int64           `json:"step_return"`
 	SimNsReturn  int64           `json:"sim_ns_return"`
+	Exec2        string          `json:"exec2,omitempty"`     // outcome of the second Exec on the same Query: "ok" | "err: ..." | "panic: ..."
+	Rows2        json.RawMessage `json:"rows2,omitempty"`
 	Reported     []string        `json:"reported,omitempty"` // errors delivered to the UnReportedErrors callback
 	Completed    int             `json:"completed"`          // CompletedCallback invocations
 }
